@@ -455,6 +455,42 @@ func runC07(c *rt.Ctx) {
 			}
 		})
 		c.Require("add-large-argument-rows", 1000)
+
+		// years that agree in their low bits: a table of recently used years, indexed by the low bits of the year and
+		// labelled with a shortened rest of it, answers for year Y with what it kept for Y +- m*2^k. One goroutine, so
+		// that the sequence "far year first, then the near one" (and the other way round) is what the library sees.
+		c.Serial("years-congruent-modulo-powers-of-two", func(w *rt.W) {
+			inRange := func(y int64) bool { return y >= -999999990 && y <= 999999990 }
+			probe := func(y int64) {
+				o := ref.Ordinal(y, 3, 1)
+				for _, k := range []int64{0, 1, 59, 306, 365, 366, 1461, 36525, 105000} {
+					c07Pair(w, o+k, o)
+					c07Pair(w, o, o+k)
+					c07Pair(w, o-k, o)
+				}
+				c07Time(w, o)
+				c07Add(w, o, 1, 0, 0)
+				c07Add(w, o, 0, -3, 0)
+				c07Add(w, o, 0, 0, 366)
+				c07AddDuration(w, o, 366*24*time.Hour)
+			}
+			for _, y := range []int64{1970, 2024, 2100, 1582, 1, 0, -44, 9999, 12345, 65536, 400000001} {
+				for k := uint(3); k <= 29; k++ {
+					for _, m := range []int64{1, -1, 2, 3, -3, 5} {
+						far := y + m<<k
+						if !inRange(far) {
+							continue
+						}
+						probe(far)
+						probe(y)
+						probe(far)
+						w.ClassN("congruent-year-visited-before-and-after", 1)
+					}
+				}
+				w.NT(1)
+			}
+		})
+		c.Require("congruent-year-visited-before-and-after", 1000)
 	}
 
 	c.Parallel("fromtime", 0, func(w *rt.W) {
